@@ -260,6 +260,12 @@ var reasons = []reason{
 	{"\xee\x80\x80", true, "U+E000 (first after surrogates)"},
 	{"\xef\xbf\xbf", true, "U+FFFF"},
 	{"\xf4\x8f\xbf\xbf", true, "U+10FFFF"},
+	{"\xef\xbf\xbd", true, "U+FFFD (the replacement character, correctly encoded)"},
+	{"bad \xef\xbf\xbd char", true, "U+FFFD inside ascii"},
+	{"\xef\xbf\xbe", true, "U+FFFE (noncharacter, valid UTF-8)"},
+	{"\xc2\x80", true, "U+0080 (first 2-byte)"},
+	{"\xdf\xbf\xe0\xa0\x80", true, "U+07FF U+0800 (2/3-byte edge)"},
+	{"\xf0\x90\x80\x80", true, "U+10000 (first 4-byte)"},
 	{strings.Repeat("r", 123), true, "123 ascii bytes"},
 	{strings.Repeat("\xe2\x82\xac", 41), true, "41 x €  (123 bytes)"},
 	{"\xff", false, "0xFF"},
